@@ -107,6 +107,9 @@ func genHTML(r *vu.Rng) []byte {
 		case 6: // doctype
 			b = append(b, []string{"<!DOCTYPE", "<!doctype", "<!DocType"}[r.Intn(3)]...)
 			b = append(b, []string{" ", "", "  \n", "\t"}[r.Intn(4)]...)
+			if r.Chance(1, 10) {
+				b = append(b, []string{"&#32;", "&#9;", "&#x20", "&#10;", "&#13;", "&Tab;", "&NewLine;"}[r.Intn(7)]...)
+			}
 			switch r.Intn(3) {
 			case 0:
 				b = append(b, "html"...)
@@ -254,6 +257,14 @@ func checkToken(t html.Token, origin string, o *vu.Out) bool {
 		// known finding: escapeComment leaves CR unescaped, the tokenizer then turns it into LF
 		o.Stat("finding:comment-cr")
 		o.Fail("comment-cr-unescaped", fmt.Sprintf("%s: comment token %q renders as %q which tokenizes to comment %q", origin, t.Data, s, back[0].Data))
+		return false
+	}
+	if len(back) == 1 && t.Type == html.DoctypeToken && back[0].Type == html.DoctypeToken &&
+		t.Data != back[0].Data && strings.TrimLeft(t.Data, " \t\n\f") == back[0].Data {
+		// known finding: doctype data that starts with white space (only obtainable through a character
+		// reference such as "<!DOCTYPE &#32;html>") is emitted raw and skipped by the doctype scanner
+		o.Stat("finding:doctype-leading-space")
+		o.Fail("doctype-leading-space", fmt.Sprintf("%s: doctype token %q renders as %q which tokenizes to doctype %q", origin, t.Data, s, back[0].Data))
 		return false
 	}
 	if len(back) != 1 || !tokEqual(back[0], t) {
